@@ -70,6 +70,7 @@ type interpreter struct {
 	curInstr        ssa.Instruction
 	frozenCount     int
 	envCount        int
+	dbgDumped       bool
 	initAllow       func(path string) bool
 	inInit          bool
 	funcsSeen       map[*ssa.Function]bool
@@ -522,9 +523,6 @@ func callSSA(i *interpreter, caller *frame, callpos token.Pos, fn *ssa.Function,
 		runFrame(fr)
 	}
 	i.curInstr = nil
-	if caller != nil && len(caller.block.Instrs) > 0 {
-		// restore a position inside the caller for diagnostics
-	}
 	return fr.result
 }
 
@@ -554,6 +552,14 @@ func runFrame(fr *frame) {
 		p := recover()
 		if pe, ok := p.(pathEnd); ok {
 			panic(pe) // engine control flow, not a target panic
+		}
+		if os.Getenv("QSYM_DEBUG") != "" && !fr.i.dbgDumped {
+			if _, isRT := p.(runtime.Error); isRT {
+				fr.i.dbgDumped = true
+				buf := make([]byte, 16384)
+				n := runtime.Stack(buf, false)
+				fmt.Fprintf(os.Stderr, "ORIGIN OF HOST PANIC %v in %s\n%s\n", p, fr.fn, buf[:n])
+			}
 		}
 		fr.panicking = true
 		fr.panic = p
